@@ -429,6 +429,9 @@ func (e *Engine) verifyFuncPass(key string, pass int, proved map[string]bool) *F
 	for name, gs := range e.Contracts.Globals {
 		if strings.HasPrefix(gs.Kind, "ghost:") {
 			sort := strings.TrimPrefix(gs.Kind, "ghost:")
+			if strings.Contains(sort, "I.error") {
+				e.Sorts.SortOf(types.Universe.Lookup("error").Type())
+			}
 			short := name[strings.Index(name, ".")+1:]
 			st.spec["ghost."+short] = Val{T: c.fresh("ghost."+short, sort)}
 		}
